@@ -361,6 +361,81 @@ def h_leaf_plumbing(eng):
         "present" if skips else "missing", where, want, data.hex()))
 
 
+def h_shared_patch(eng, isa):
+    """One Patch object inserted at several places, and again in a second rewrite of a fresh module (what a pass that keeps
+    its patch around does): every insertion gets the whole prologue and epilogue, and the bytes do not depend on how often the
+    object was used before."""
+    from gtirb_rewriting import Constraints, Patch, RewritingContext
+
+    ISA = {"x64": gtirb.Module.ISA.X64, "arm64": gtirb.Module.ISA.ARM64, "ia32": gtirb.Module.ISA.IA32}[isa]
+    FMT = gtirb.Module.FileFormat.PE if isa == "ia32" else gtirb.Module.FileFormat.ELF
+    code = {"x64": b"\x90\xc3", "ia32": b"\x90\xc3", "arm64": b"\x1f\x20\x03\xd5" + b"\xc0\x03\x5f\xd6"}[isa]
+    reg = {"x64": "rax", "ia32": "eax", "arm64": "x0"}[isa]
+    body = "nop"
+    patch = Patch.from_function(lambda c: body, Constraints(clobbers_flags=True, clobbers_registers={reg}))
+
+    def rewrite():
+        ir = gtirb.IR()
+        m = gtirb.Module(name="m", isa=ISA, file_format=FMT, ir=ir, byte_order=gtirb.Module.ByteOrder.Little)
+        sect = gtirb.Section(name=".text", module=m, flags={gtirb.Section.Flag.Readable, gtirb.Section.Flag.Executable,
+                                                            gtirb.Section.Flag.Loaded, gtirb.Section.Flag.Initialized})
+        bi = gtirb.ByteInterval(contents=code * 3, address=0x1000, section=sect)
+        blocks = [gtirb.CodeBlock(offset=i * len(code), size=len(code), byte_interval=bi) for i in range(3)]
+        for i, b in enumerate(blocks):
+            gtirb.Symbol("f%d" % i, payload=b, module=m)
+            ir.cfg.add(gtirb.Edge(b, gtirb.ProxyBlock(module=m), gtirb.Edge.Label(gtirb.Edge.Type.Return)))
+        ctx = RewritingContext(m, [])
+        for b in blocks:
+            ctx.insert_at(b, 0, patch)
+        ctx.apply()
+        out = []
+        for i in range(3):
+            ref = next(m.symbols_named("f%d" % i)).referent
+            nxt = next(m.symbols_named("f%d" % (i + 1))).referent if i < 2 else None
+            start = ref.address
+            end = nxt.address if nxt is not None else ref.byte_interval.address + ref.byte_interval.size
+            iv = ref.byte_interval
+            out.append(bytes(iv.contents[start - iv.address:end - iv.address]).hex())
+        return out
+
+    first = rewrite()
+    second = rewrite()
+    eng.check(len(set(first)) == 1, "one Patch object inserted at three identical places gives different code: %r" % (first,))
+    eng.check(first[0].endswith(code.hex()) and len(first[0]) > len(code.hex()), "the original instructions do not follow the insertion")
+    eng.check(second == first, "the same Patch object used in a second rewrite of an identical module gives different code: "
+                               "%r then %r" % (first, second))
+
+
+def h_scratch_pool(eng, abiname):
+    """Scratch registers when clobbers and reads use up the pool: exactly as many as requested, or a ValueError - never fewer."""
+    from gtirb_rewriting import Constraints
+    from gtirb_rewriting.abi import ABI
+
+    class Desc:
+        pass
+    d = Desc()
+    d.isa, d.file_format = ABIS[abiname]
+    abi = ABI.get(d)
+    pool = [r.name for r in abi._scratch_registers()]
+    n = len(pool)
+    k = eng.choose("clobbered", list(range(0, n + 1)))
+    r = eng.choose("read", [x for x in (0, 1, 2) if k + x <= n])
+    left = n - k - r
+    want = eng.choose("requested", sorted({x for x in (left - 1, left, left + 1, n) if x >= 0}))
+    clobbers, reads = pool[:k], pool[k:k + r]
+    cons = Constraints(clobbers_registers=set(clobbers), reads_registers=set(reads), scratch_registers=want)
+    try:
+        alloc = abi._allocate_patch_registers(cons)
+    except ValueError:
+        eng.check(want > left, "%d scratch registers refused although %d remain (pool %d, %d clobbered, %d read)" % (want, left, n, k, r))
+        return
+    got = [x.name for x in alloc.scratch_registers]
+    eng.check(want <= left, "%d scratch registers requested with only %d left: no error, got %r" % (want, left, got))
+    eng.check(len(got) == want, "%d scratch registers requested, %d handed out (%r)" % (want, len(got), got))
+    eng.check(len(set(got)) == len(got) and not set(got) & set(reads) and not set(got) & set(clobbers),
+              "scratch registers %r overlap the read %r / clobbered %r registers or repeat" % (got, reads, clobbers))
+
+
 def make_check(tier):
     global TIER
     TIER = tier
@@ -374,7 +449,13 @@ def make_check(tier):
                     chk.add("prologue/%s/flags%d/align%d/preserve%d" % (abiname, flags, align, preserve), h_prologue,
                             params=dict(abiname=abiname, flags=flags, align=align, preserve=preserve), timeout=3000)
     chk.add("leaf-plumbing/x64-elf", h_leaf_plumbing, timeout=600)
+    for isa in ("x64", "ia32", "arm64"):
+        chk.add("shared-patch/%s" % isa, h_shared_patch, params=dict(isa=isa), timeout=600)
+    for abiname in ABIS:
+        chk.add("scratch-pool/%s" % abiname, h_scratch_pool, params=dict(abiname=abiname), timeout=600)
     chk.bounds = {
+        "patch object reuse": "one Patch object (clobbers a register and the flags) inserted at three places and in two successive rewrites",
+        "scratch pool": "every ABI: 0..all pool registers clobbered, 0..2 read, requests around what is left (left-1, left, left+1, whole pool)",
         "leaf bit": "RewritingContext -> ABI: block in a leaf function, in a calling function, outside every function, in a function "
                     "the context was not given; leafFunctions table absent or overriding either way",
         "configurations (enumerated)": "5 ABIs x clobbers_flags x align_stack x preserve_caller_saved_registers x scratch 0..3 x "
